@@ -38,6 +38,12 @@ func init() {
 		"(reflect.Value).FieldByIndex": hRVFieldByIndex,
 		"(reflect.Value).Field":        hRVField,
 		"(reflect.Value).NumField":     hRVNumField,
+		"(reflect.Value).String":       hRVString,
+		"(reflect.Value).Int":          hRVInt,
+		"(reflect.Value).Uint":         hRVUint,
+		"(reflect.Value).Float":        hRVFloat,
+		"(reflect.Value).Bool":         hRVBool,
+		"(reflect.Value).CanInterface": hRVCanInterface,
 		"(reflect.Kind).String":        func(m *Machine, fr *frame, fn *ssa.Function, a []Value) Value { return "kind" },
 		// ---- sync ----
 		"(*sync.Mutex).Lock":       hMutexLock,
@@ -186,6 +192,48 @@ func init() {
 			return strings.ToLower(m.concStr(a[0]))
 		},
 		"regexp.MatchString": hRegexpMatch,
+		// a compiled expression is an opaque token holding its (concrete) source text; matching goes through the host
+		"regexp.Compile": func(m *Machine, fr *frame, fn *ssa.Function, a []Value) Value {
+			src, ok := a[0].(string)
+			if !ok {
+				m.end(StEngineError, "unmodelled: regexp.Compile of a symbolic expression")
+			}
+			if _, err := regexp.Compile(src); err != nil {
+				var nilRe *Value
+				return Tuple{nilRe, m.hostErr(err)}
+			}
+			p := new(Value)
+			*p = Struct{"regexp:" + src}
+			return Tuple{p, Iface{}}
+		},
+		"regexp.MustCompile": func(m *Machine, fr *frame, fn *ssa.Function, a []Value) Value {
+			src, ok := a[0].(string)
+			if !ok {
+				m.end(StEngineError, "unmodelled: regexp.MustCompile of a symbolic expression")
+			}
+			if _, err := regexp.Compile(src); err != nil {
+				m.reflectPanic(fr, "regexp: Compile(%s): %s", strconv.Quote(src), err.Error())
+			}
+			p := new(Value)
+			*p = Struct{"regexp:" + src}
+			return p
+		},
+		"(*regexp.Regexp).MatchString": func(m *Machine, fr *frame, fn *ssa.Function, a []Value) Value {
+			p, _ := a[0].(*Value)
+			if p == nil {
+				m.runtimePanic(fr, "invalid memory address or nil pointer dereference (nil *regexp.Regexp)")
+			}
+			src := strings.TrimPrefix((*p).(Struct)[0].(string), "regexp:")
+			r := hRegexpMatch(m, fr, fn, []Value{src, a[1]}).(Tuple)
+			return r[0]
+		},
+		"(*regexp.Regexp).String": func(m *Machine, fr *frame, fn *ssa.Function, a []Value) Value {
+			p, _ := a[0].(*Value)
+			if p == nil {
+				m.runtimePanic(fr, "invalid memory address or nil pointer dereference (nil *regexp.Regexp)")
+			}
+			return strings.TrimPrefix((*p).(Struct)[0].(string), "regexp:")
+		},
 		"strings.Join": func(m *Machine, fr *frame, fn *ssa.Function, a []Value) Value {
 			sl := a[0].(Slice)
 			parts := make([]string, sl.Len)
@@ -611,6 +659,51 @@ func hRVType(m *Machine, fr *frame, fn *ssa.Function, a []Value) Value {
 		m.reflectPanic(fr, "reflect: call of reflect.Value.Type on zero Value")
 	}
 	return m.rtypeIface(v.T)
+}
+
+// scalar accessors: the value converted (by the interpreter's own conversion rules) to the accessor's result type
+func (m *Machine) rvScalar(fr *frame, a []Value, method string, dst types.Type, accept func(k uint64) bool) Value {
+	v := a[0].(RValue)
+	if !v.Valid {
+		m.reflectPanic(fr, "reflect: call of reflect.Value.%s on zero Value", method)
+	}
+	if !accept(kindOf(v.T)) {
+		m.reflectPanic(fr, "reflect: call of reflect.Value.%s on %s Value", method, v.T)
+	}
+	return m.conv(fr, dst, v.T.Underlying(), copyVal(v.V))
+}
+
+func hRVInt(m *Machine, fr *frame, fn *ssa.Function, a []Value) Value {
+	return m.rvScalar(fr, a, "Int", types.Typ[types.Int64], func(k uint64) bool { return k >= 2 && k <= 6 })
+}
+func hRVUint(m *Machine, fr *frame, fn *ssa.Function, a []Value) Value {
+	return m.rvScalar(fr, a, "Uint", types.Typ[types.Uint64], func(k uint64) bool { return k >= 7 && k <= 12 })
+}
+func hRVFloat(m *Machine, fr *frame, fn *ssa.Function, a []Value) Value {
+	return m.rvScalar(fr, a, "Float", types.Typ[types.Float64], func(k uint64) bool { return k == 13 || k == 14 })
+}
+func hRVBool(m *Machine, fr *frame, fn *ssa.Function, a []Value) Value {
+	return m.rvScalar(fr, a, "Bool", types.Typ[types.Bool], func(k uint64) bool { return k == 1 })
+}
+
+// Value.String: the string itself for a String kind; "<T Value>" otherwise (it never panics)
+func hRVString(m *Machine, fr *frame, fn *ssa.Function, a []Value) Value {
+	v := a[0].(RValue)
+	if !v.Valid {
+		return "<invalid Value>"
+	}
+	if kindOf(v.T) == 24 {
+		return copyVal(v.V)
+	}
+	return "<" + types.TypeString(v.T, nil) + " Value>"
+}
+
+func hRVCanInterface(m *Machine, fr *frame, fn *ssa.Function, a []Value) Value {
+	v := a[0].(RValue)
+	if !v.Valid {
+		m.reflectPanic(fr, "reflect: call of reflect.Value.CanInterface on zero Value")
+	}
+	return m.C.BoolC(!v.RO)
 }
 
 func hRVLen(m *Machine, fr *frame, fn *ssa.Function, a []Value) Value {
